@@ -232,6 +232,7 @@ def check_worker(cases):
 
 
 SEEN = {}
+KNOWN = []
 
 
 def judge_group(ctx, module, cases, fields, name, keyfn, parallel=1, drift_clauses=()):
@@ -255,6 +256,8 @@ def judge_group(ctx, module, cases, fields, name, keyfn, parallel=1, drift_claus
                     ctx.violation(key, cl, small, "%s %s" % (what.replace("\n", " "), extra))
         elif extra.startswith("drift"):
             ctx.report_drift("%s: %s" % (name, (c.get("s"), extra)))
+        elif extra.startswith("known"):
+            KNOWN.append(c.get("s"))
 
 
 def run(ctx):
@@ -275,6 +278,7 @@ def run(ctx):
     rng = random.Random(ctx.seed * 104729 + 19)
     thorough = ctx.tier == "thorough"
     SEEN.clear()
+    del KNOWN[:]
     if os.environ.get("VERIF_C19_STAGE") == "R":       # development aid: replay only (mutation testing)
         return replay_all(ctx, rng)
 
@@ -400,6 +404,9 @@ def judge_cases(ctx, cases):
         ctx.sample({"kind": "parse", "cases": [(c["s"], c["pub"], c.get("raw")) for c in pc[:12]]})
     ctx.extra["strings_replayed"] = len(pc)
     ctx.extra["kernels_replayed"] = len(kc)
+    if KNOWN:
+        ctx.note("modelled deviation (DistanceOps.IsFloatWord): _get_distance returns NaN/inf for %s; the public "
+                 "circle_kernel rejects them, so the property holds" % sorted(set(KNOWN)))
     for key, n in sorted(SEEN.items()):
         if n > 3:
             ctx.note("%s: %d failing cases (3 replay files written)" % (key, n))
